@@ -1054,13 +1054,31 @@ class Choice(object):
 
     def encode(self, taglist):
         if _debug: Choice._debug("(%r)encode %r", self.__class__.__name__, taglist)
+        global _sequence_of_classes, _list_of_classes
 
         for element in self.choiceElements:
             value = getattr(self, element.name, None)
             if value is None:
                 continue
 
-            if issubclass(element.klass, (Atomic, AnyAtomic)):
+            if (element.klass in _sequence_of_classes) or (element.klass in _list_of_classes):
+                # check for context encoding
+                if element.context is None:
+                    raise NotImplementedError("choice of a SequenceOf must be context encoded")
+
+                # a plain list (what decode() returns) or an instance of the list class
+                if isinstance(value, element.klass):
+                    helper = value
+                else:
+                    helper = element.klass(value)
+
+                # encode the value between an opening and closing tag
+                taglist.append(OpeningTag(element.context))
+                helper.encode(taglist)
+                taglist.append(ClosingTag(element.context))
+                break
+
+            elif issubclass(element.klass, (Atomic, AnyAtomic)):
                 # a helper cooperates between the atomic value and the tag
                 helper = element.klass(value)
 
@@ -1117,8 +1135,8 @@ class Choice(object):
                 # check for context encoding
                 if element.context is None:
                     raise NotImplementedError("choice of a SequenceOf must be context encoded")
-                # match the context tag number
-                if tag.tagClass != Tag.contextTagClass or tag.tagNumber != element.context:
+                # match the opening tag number
+                if tag.tagClass != Tag.openingTagClass or tag.tagNumber != element.context:
                     continue
                 taglist.Pop()
 
@@ -1227,7 +1245,10 @@ class Choice(object):
             if value is None:
                 continue
 
-            if issubclass(element.klass, Atomic):
+            if (element.klass in _sequence_of_classes) or (element.klass in _list_of_classes):
+                helper = value if isinstance(value, element.klass) else element.klass(value)
+                mapped_value = helper.dict_contents(as_class=as_class)
+            elif issubclass(element.klass, Atomic):
                 mapped_value = value                    ### ambiguous
             elif issubclass(element.klass, AnyAtomic):
                 mapped_value = value.value              ### ambiguous
